@@ -350,8 +350,7 @@ macro_rules! detect_harness {
 }
 detect_harness!(c13_detect_lost_n1, 1, false);
 detect_harness!(c13_detect_lost_n2, 2, false);
-detect_harness!(c13_detect_lost_n3, 3, false);
-detect_harness!(c13_detect_lost_n4, 4, false);
+// measured: N = 3 and N = 4 do not finish in 400 s (not registered, instances removed)
 
 // SUSPECTED DEFECT (tier "pending"): RFC 9002 section 6.1 / A.10 only consider packets sent before an
 // acknowledged packet (`if unacked.packet_number > largest_acked: continue`); here the time
@@ -475,7 +474,8 @@ fn ack_step<const N: usize>(fr: u64, second: Option<(u64, u64)>) {
     let exp_largest = match pre_largest { Some(l) if l >= largest => l, _ => largest };
     assert!(space.largest_acked_packet == Some(exp_largest) && space.loss_time == pre_loss_time && inv_holds(&space),
         "largest acknowledged = max(previous, frame); invariant I re-established");
-    kani::cover!(N < 1 || (newly_any && k == 0), "newly acked, nothing trimmed");
+    kani::cover!(N < 2 || (newly_any && k == 0), "newly acked, nothing trimmed (N >= 2: an older packet is still in flight)");
+    kani::cover!(N != 1 || (newly_any && k == 1), "newly acked and trimmed (N = 1)");
     kani::cover!(N < 2 || (newly_any && k > 0 && k < N), "partial trim (N >= 2)");
     kani::cover!(N < 2 || !has2 || (chk.acked[0] == 1 && chk.acked[N - 1] == 1), "both ranges hit (N >= 2, two ranges)");
     kani::cover!(N < 1 || (!newly_any && is_tracked), "duplicate ACK");
@@ -495,12 +495,50 @@ macro_rules! ack_harness {
     };
 }
 // frame shapes: a = [8], b = [6..=8], c = [7..=8] [4..=5] (gap 0), d = [8] [3..=5] (gap 1)
+// measured: two-range frames with N >= 2 (n2_c, n2_d, n3_c, n3_d, n4_c) exceed the 10 GB memory limit (instances removed)
 ack_harness!(c13_on_ack_n0_b, 0, 2, None);
 ack_harness!(c13_on_ack_n1_a, 1, 0, None);
 ack_harness!(c13_on_ack_n1_c, 1, 1, Some((0, 1)));
 ack_harness!(c13_on_ack_n2_b, 2, 2, None);
-ack_harness!(c13_on_ack_n2_c, 2, 1, Some((0, 1)));
-ack_harness!(c13_on_ack_n2_d, 2, 0, Some((1, 2)));
-ack_harness!(c13_on_ack_n3_c, 3, 1, Some((0, 1)));
-ack_harness!(c13_on_ack_n3_d, 3, 0, Some((1, 2)));
-ack_harness!(c13_on_ack_n4_c, 4, 1, Some((0, 1)));
+
+// ---------------------------------------------------------------------------------------------
+// discard (packet-number space abandoned) and no_ack_eliciting_in_flight
+
+fn discard_step<const N: usize>() {
+    let now = h_start();
+    let mad = any_dur(17);
+    let base = any_base();
+    let (mut space, pre, pns) = any_space::<N>(now, mad, base, 16);
+    let largest = space.largest_acked_packet;
+    let (mut algo, cp) = boxed(Chk::new(pns));
+    let quiet = space.no_ack_eliciting_in_flight();
+    space.discard(&mut algo);
+    let chk: &Chk = unsafe { &*cp };
+    let mut ok = true;
+    let mut exp_quiet = true;
+    let mut n_inflight = 0usize;
+    let mut i = 0usize;
+    while i < N {
+        let q = pre[i];
+        let inflight = q.st == 0;
+        if inflight { n_inflight = n_inflight.wrapping_add(1); }
+        if inflight && q.ae { exp_quiet = false; }
+        ok &= chk.removed[i] == inflight as u8 && (!inflight || chk.removed_st[i] == 0);
+        i = i.wrapping_add(1);
+    }
+    assert!(quiet == exp_quiet, "no_ack_eliciting_in_flight <=> no tracked packet is both ack-eliciting and still in flight");
+    assert!(ok && chk.removed_calls == 1 && chk.unknown == 0 && chk.other == 0 && chk.lost_calls == 0,
+        "exactly the packets still in flight are removed from bytes_in_flight, once each (acknowledged / lost ones were accounted before)");
+    assert!(space.sent_packets.is_empty() && space.loss_time.is_none() && space.time_of_last_ack_eliciting_packet.is_none() && space.largest_acked_packet == largest,
+        "the space forgets its packets and its timers");
+    kani::cover!(n_inflight == 1 && N == 2, "one of two packets still in flight");
+    core::mem::forget(space);
+}
+
+#[kani::proof]
+#[kani::unwind(6)]
+#[kani::stub(tokio::time::Instant::now, sym_now)]
+#[kani::stub(is_symbolic_run, stub_yes)]
+fn c13_discard_n2() {
+    discard_step::<2>();
+}
